@@ -7,7 +7,7 @@
    severity, ignore comments already applied).  No proofs here. *)
 From Coq Require Import List Bool Arith NArith.
 From Coq Require Import Strings.String Strings.Byte.
-From Falco Require Import Base.Bytes.
+From Falco Require Import Base.Bytes Gen.LintGen.
 Import ListNotations.
 Open Scope list_scope.
 
@@ -36,18 +36,33 @@ Definition upper (b : byte) : byte :=
   let n := b2n b in
   if andb (N.leb 97 n) (N.leb n 122) then n2b (n - 32)%N else b.
 
-Definition s_error   : list byte := Eval compute in list_byte_of_string "ERROR".
-Definition s_warning : list byte := Eval compute in list_byte_of_string "WARNING".
-Definition s_info    : list byte := Eval compute in list_byte_of_string "INFO".
-Definition s_ignore  : list byte := Eval compute in list_byte_of_string "IGNORE".
+(* the Go identifiers of the linter.Severity constants *)
+Definition c_error   : list byte := Eval compute in list_byte_of_string "ERROR".
+Definition c_warning : list byte := Eval compute in list_byte_of_string "WARNING".
+Definition c_info    : list byte := Eval compute in list_byte_of_string "INFO".
+Definition c_ignore  : list byte := Eval compute in list_byte_of_string "IGNORE".
+Definition sev_of_const (n : list byte) : option severity :=
+  if bytes_eqb n c_error then Some SevError
+  else if bytes_eqb n c_warning then Some SevWarning
+  else if bytes_eqb n c_info then Some SevInfo
+  else if bytes_eqb n c_ignore then Some SevIgnore
+  else None.
 
-(* the switch of NewRunner over strings.ToUpper(value); None = "invalid value, skipping" *)
+(* the switch of NewRunner over strings.ToUpper(value): its case labels and the constant each one selects are
+   regenerated from cmd/falco/runner.go (Gen/LintGen.v override_words); None = "invalid value, skipping" *)
 Definition parse_level (v : list byte) : option severity :=
   let u := map upper v in
-  if bytes_eqb u s_error then Some SevError
-  else if bytes_eqb u s_warning then Some SevWarning
-  else if bytes_eqb u s_info then Some SevInfo
-  else if bytes_eqb u s_ignore then Some SevIgnore
+  match find (fun p => bytes_eqb (fst p) u) override_words with
+  | Some (_, n) => sev_of_const n
+  | None => None
+  end.
+
+(* a linter.Severity as it is printed / encoded in JSON (regenerated spellings) *)
+Definition sev_of_string (s : list byte) : option severity :=
+  if bytes_eqb s severity_ERROR then Some SevError
+  else if bytes_eqb s severity_WARNING then Some SevWarning
+  else if bytes_eqb s severity_INFO then Some SevInfo
+  else if bytes_eqb s severity_IGNORE then Some SevIgnore
   else None.
 
 (* c.Linter.Rules (a map: keys are unique) -> r.overrides *)
